@@ -18,6 +18,9 @@ import (
 func init() {
 	// the observation primitive is reachable as (mark ...) from the user package, see fixMark
 	slip.UserPkg.Use(ev.VT)
+	// like the packages slip itself defines in go, the package of the application is locked; snapshot takes an
+	// unlocked package as one the session created with defpackage
+	ev.VT.Locked = true
 }
 
 // DefsCase is a small world of packages, flavors, classes and generic functions; every object is rebuilt from its
